@@ -607,6 +607,29 @@ func (w *world) doOp(shim shimagent.ShimAgent, u *under, op, arg string) string 
 			}
 		}
 		return "G:ok:unverifiable"
+	case "sign256", "sign512":
+		pub := w.pub(arg)
+		data := []byte("data to sign " + arg)
+		flags, format := sshagent.SignatureFlagRsaSha256, ssh.KeyAlgoRSASHA256
+		if op == "sign512" {
+			flags, format = sshagent.SignatureFlagRsaSha512, ssh.KeyAlgoRSASHA512
+		}
+		sig, err := shim.SignWithFlags(pub, data, flags)
+		if err != nil {
+			if err.Error() == "agent: key not found" {
+				return "G:notfound"
+			}
+			return "G:err"
+		}
+		if sig.Format != format {
+			return "G:ok:format=" + sig.Format
+		}
+		for _, k := range getKeys() {
+			if k.signer.PublicKey().Verify(data, sig) == nil {
+				return "G:ok:" + k.name
+			}
+		}
+		return "G:ok:unverifiable"
 	case "add":
 		return okErr(shim.Add(w.added(arg)))
 	case "addhard":
